@@ -310,3 +310,19 @@ Proof.
   - clear IH. f_equal. induction s as [|d s IHs]; [reflexivity|]. cbn. now rewrite IHs.
   - apply IH.
 Qed.
+
+(* ---------- the complement table is the IUPAC one ---------- *)
+(* stated independently of the source: NC-IUB 1984, the code of the set of complemented bases; both cases *)
+Definition iupac_pairs : list (string * string) :=
+  [("A", "T"); ("C", "G"); ("G", "C"); ("T", "A"); ("R", "Y"); ("Y", "R"); ("K", "M"); ("M", "K"); ("S", "S"); ("W", "W");
+   ("B", "V"); ("V", "B"); ("D", "H"); ("H", "D"); ("N", "N");
+   ("a", "t"); ("c", "g"); ("g", "c"); ("t", "a"); ("r", "y"); ("y", "r"); ("k", "m"); ("m", "k"); ("s", "s"); ("w", "w");
+   ("b", "v"); ("v", "b"); ("d", "h"); ("h", "d"); ("n", "n")].
+
+Theorem complement_table_is_iupac :
+  forall a b, In (a, b) iupac_pairs ->
+  match a with String c EmptyString => wcc c = Some b | _ => False end.
+Proof.
+  intros a b H. unfold iupac_pairs in H.
+  repeat (destruct H as [H|H]; [injection H as <- <-; vm_compute; reflexivity|]). destruct H.
+Qed.
